@@ -27,6 +27,8 @@ from ..findings import is_open
 from raysect.core.math.random import seed as rs_seed
 from raysect.core.math import triangulate2d            # used for NT labelling only, never for the oracle
 from raysect.core.math.function.float import Arg3D, Constant3D
+from raysect.core import translate
+from raysect.optical import World
 from cherab.tools.inversions import AxisymmetricVoxel, ToroidalVoxelGrid
 
 ID = "C17"
@@ -41,7 +43,14 @@ RULE = ("Polygons are built by construction in a local frame and then scaled (1e
         "cases: one order per orientation as mesh, the others as csg) and compared with the exact rational area/centroid/volume; non-trivial = concave or >=5 vertices. sampling: one drawn "
         "vertex order, raysect RNG seeded from the case, N in {4000, 20000}; non-trivial = >=4 vertices, order rotated or "
         "reversed, and the triangles raysect's ear clipping makes for that order differ in area by >10 %. grid: 1-12 "
-        "non-overlapping cells (lattice of rectangles / inscribed polygons); non-trivial = >=2 voxels with different volumes. "
+        "non-overlapping cells (lattice of rectangles / inscribed polygons), constructed with active='all' or a drawn index, "
+        "with or without a parent World / transform, then driven through 0-6 drawn state-changing public calls "
+        "(set_active('all'), set_active(i), rejected set_active, unparent_all_voxels, parent_all_voxels, grid.parent = "
+        "World()/None, voxel.parent = None/grid/World()); count/len/iteration, every voxel's area/centroid/volume and "
+        "total_volume (== sum of the voxels' reported volumes == sum of the exact volumes) are checked after construction "
+        "and after every call, the emissivities in the final state; non-trivial = >=2 voxels with different volumes and at "
+        "least one checked state in which only a proper subset of the voxels is parented to the grid (voxel list != scene-"
+        "graph children). "
         "distinct = distinct JSON case.")
 ASSUMPTIONS = [
     "float vertices are taken as exact rationals; the oracle is Python integer arithmetic (signed triangle fan)",
@@ -77,7 +86,13 @@ TOLERANCES = {
 }
 REQUIRED_LABELS = ["geometry:kind=tri", "geometry:kind=rect", "geometry:kind=convex", "geometry:kind=star",
                    "geometry:kind=tmpl", "geometry:prim=mesh", "geometry:prim=csg", "geometry:concave",
-                   "geometry:on-axis", "sampling:nt", "sampling:kind=tmpl", "sampling:reversed", "grid:cells>=2"]
+                   "geometry:on-axis", "sampling:nt", "sampling:kind=tmpl", "sampling:reversed", "grid:cells>=2",
+                   "grid:ctor-active=all", "grid:ctor-active=int", "grid:ctor-parent=world", "grid:ctor-transform",
+                   "grid:state=all-parented", "grid:state=one-parented", "grid:state=some-parented",
+                   "grid:state=none-parented", "grid:state=grid-in-world", "grid:state=grid-detached",
+                   "grid:state=voxel-in-other-node",
+                   "grid:op=set_active_all", "grid:op=set_active", "grid:op=set_active_rejected", "grid:op=unparent_all",
+                   "grid:op=parent_all", "grid:op=grid_parent", "grid:op=voxel_parent", "grid:nt"]
 
 # open finding C17-oob-triangle-index: emissivity_from_function reads one past its triangle table with probability
 # ~ (r z / area) * 1e-16 per sample.  While it is open the sampling / grid sub-checks keep cells within 1e2 sizes of the
@@ -464,7 +479,21 @@ def grid_strategy(draw):
             if ex.degenerate or not (3.2 <= mesh_segments(p, ex) <= 32.0):
                 prim = "csg"
                 break
-    return {"cells": cells, "prim": prim, "const": draw(_const), "lin": [draw(st.floats(-100.0, 100.0)), draw(_coef), draw(_coef)],
+    idx = st.integers(0, 11)                  # voxel indices are taken modulo the number of voxels in run()
+    ctor = {"active": draw(st.one_of(st.just("all"), idx)), "world": draw(st.booleans()), "transform": draw(st.booleans())}
+    op = st.one_of(
+        st.just(["set_active_all", None]),
+        idx.map(lambda i: ["set_active", i]),
+        st.sampled_from([["set_active_rejected", "past-end"], ["set_active_rejected", -1], ["set_active_rejected", "none"],
+                         ["set_active_rejected", None], ["set_active_rejected", 1.0]]),
+        st.just(["unparent_all", None]),
+        st.just(["parent_all", None]),
+        st.sampled_from([["grid_parent", "world"], ["grid_parent", "none"]]),
+        st.tuples(idx, st.sampled_from(["none", "grid", "world"])).map(lambda t: ["voxel_parent", [t[0], t[1]]]),
+    )
+    ops = draw(st.lists(op, min_size=0, max_size=6))
+    return {"cells": cells, "prim": prim, "ctor": ctor, "ops": ops, "const": draw(_const),
+            "lin": [draw(st.floats(-100.0, 100.0)), draw(_coef), draw(_coef)],
             "seed": draw(st.integers(1, 2 ** 31 - 1)), "n": draw(st.sampled_from([10, 1000, 4000]))}
 
 
@@ -888,26 +917,108 @@ def run_grid(case, ctx):
     if m >= 2:
         ctx.label("cells>=2")
     bds = [rounding_bounds(c, e) for c, e in zip(cells, exs)]
+    ctor = case.get("ctor") or {"active": "all", "world": False, "transform": False}
+    ops = case.get("ops") or []
+    active = ctor["active"] if ctor["active"] == "all" else int(ctor["active"]) % m
+    ctx.label("ctor-active=" + ("all" if active == "all" else "int"))
+    kw = {}
+    if ctor.get("world"):
+        kw["parent"] = World()
+        ctx.label("ctor-parent=world")
+    if ctor.get("transform"):
+        kw["transform"] = translate(0.25, 0.0, 1.5)
+        ctx.label("ctor-transform")
     _stage(ctx, "construct grid")
     with ctx.cut("construct"):
-        grid = ToroidalVoxelGrid(cells, primitive_type=case["prim"])
-    with ctx.cut("count"):
-        cnt, ln = grid.count, len(grid)
-    ctx.check(cnt == m and ln == m, "count", "grid of %d cells reports count=%r len=%r" % (m, cnt, ln))
-    vols = []
-    for i in range(m):
-        with ctx.cut("getitem"):
-            vox = grid[i]
-        vols.append(_check_voxel_numbers(ctx, vox, exs[i], bds[i], "[voxel %d of %d]" % (i, m))[3])
-    with ctx.cut("total_volume"):
-        tv = grid.total_volume
-    acc = 0
-    for v in vols:
-        acc += v
-    ctx.close(tv, acc, "total_volume=sum(reported)", rtol=1e-12, info="(%d voxels, volumes %r)" % (m, vols[:12]))
-    exact_total = sum(e.fV for e in exs)
-    ctx.close(tv, exact_total, "total_volume=sum(exact)", rtol=(m + 4) * U, atol=SAFETY * sum(b["V"] for b in bds),
-              info="(%d voxels)" % m)
+        grid = ToroidalVoxelGrid(cells, primitive_type=case["prim"], active=active, **kw)
+    with ctx.cut("getitem"):
+        voxels = [grid[i] for i in range(m)]
+    worlds = []                       # keep foreign parents alive
+    state = {"proper_subset": False}
+
+    def check_state(tag):
+        """the statement does not depend on which voxels are active / parented: check everything in this state."""
+        with ctx.cut("count"):
+            cnt, ln = grid.count, len(grid)
+        ctx.check(cnt == m and ln == m, "count", lambda: "grid of %d cells reports count=%r len=%r %s" % (m, cnt, ln, tag))
+        with ctx.cut("iteration"):
+            it = list(grid)
+            gi = [grid[i] for i in range(m)]
+        ctx.check(len(it) == m and all(x is y for x, y in zip(it, voxels)) and all(x is y for x, y in zip(gi, voxels)),
+                  "voxel-list", lambda: "iteration / indexing no longer yield the %d voxels in construction order %s" % (m, tag))
+        vols = [_check_voxel_numbers(ctx, voxels[i], exs[i], bds[i], "[voxel %d of %d] %s" % (i, m, tag))[3] for i in range(m)]
+        with ctx.cut("total_volume"):
+            tv = grid.total_volume
+        acc = 0
+        for v in vols:
+            acc += v
+        ctx.close(tv, acc, "total_volume=sum(reported)", rtol=1e-12, scale=max(abs(acc), 1e-300),
+                  info="(%d voxels, volumes %r) %s" % (m, vols[:12], tag))
+        ctx.close(tv, sum(e.fV for e in exs), "total_volume=sum(exact)", rtol=(m + 4) * U,
+                  atol=SAFETY * sum(b["V"] for b in bds), info="(%d voxels) %s" % (m, tag))
+        # classify the state (labels / non-trivial only)
+        npar = sum(1 for v in voxels if v.parent is grid)
+        ctx.label("state=" + ("all-parented" if npar == m else "none-parented" if npar == 0 else
+                              "one-parented" if npar == 1 else "some-parented"))
+        ctx.label("state=grid-in-world" if grid.parent is not None else "state=grid-detached")
+        if any(v.parent is not None and v.parent is not grid for v in voxels):
+            ctx.label("state=voxel-in-other-node")
+        if npar < m:
+            state["proper_subset"] = True
+        return vols
+
+    history = "after ToroidalVoxelGrid(active=%r%s%s)" % (active, ", parent=World()" if "parent" in kw else "",
+                                                         ", transform=..." if "transform" in kw else "")
+    vols = check_state("[" + history + "]")
+    for name, arg in ops:
+        ctx.label("op=" + name)
+        _stage(ctx, "grid op %s %r" % (name, arg))
+        if name == "set_active_all":
+            with ctx.cut("set_active"):
+                grid.set_active("all")
+            desc = "set_active('all')"
+        elif name == "set_active":
+            i = int(arg) % m
+            with ctx.cut("set_active"):
+                grid.set_active(i)
+            desc = "set_active(%d)" % i
+        elif name == "set_active_rejected":
+            bad = m + 2 if arg == "past-end" else arg
+            try:                      # whether and what it raises is not part of C17; the state must stay consistent
+                grid.set_active(bad)
+            except Exception:  # noqa
+                pass
+            desc = "set_active(%r) [invalid]" % (bad,)
+        elif name == "unparent_all":
+            with ctx.cut("unparent_all_voxels"):
+                grid.unparent_all_voxels()
+            desc = "unparent_all_voxels()"
+        elif name == "parent_all":
+            with ctx.cut("parent_all_voxels"):
+                grid.parent_all_voxels()
+            desc = "parent_all_voxels()"
+        elif name == "grid_parent":
+            with ctx.cut("grid.parent"):
+                if arg == "world":
+                    worlds.append(World())
+                    grid.parent = worlds[-1]
+                else:
+                    grid.parent = None
+            desc = "grid.parent = %s" % ("World()" if arg == "world" else "None")
+        elif name == "voxel_parent":
+            i = int(arg[0]) % m
+            with ctx.cut("voxel.parent"):
+                if arg[1] == "world":
+                    worlds.append(World())
+                    voxels[i].parent = worlds[-1]
+                else:
+                    voxels[i].parent = grid if arg[1] == "grid" else None
+            desc = "grid[%d].parent = %s" % (i, {"world": "World()", "grid": "grid", "none": "None"}[arg[1]])
+        else:
+            ctx.label("unknown-op-skipped")
+            continue
+        history += "; " + desc
+        vols = check_state("[" + history + "]")
     # emissivities: constants exact, linear field within the bound for every voxel
     N = int(case["n"])
     rs_seed(int(case["seed"]))
@@ -934,11 +1045,14 @@ def run_grid(case, ctx):
         ctx.check(abs(el[i] - mu) <= tol, "linear",
                   lambda: "voxel %d: linear field %r sampled mean %r, f(centroid) %r, |diff| %.4g > %.4g" % (i, case["lin"], el[i], mu, abs(el[i] - mu), tol))
     distinct = len(set(round(v / max(vols), 9) for v in vols)) >= 2 if max(vols) > 0 else False
-    ctx.nt(m >= 2 and distinct)
+    nt = m >= 2 and distinct and state["proper_subset"]
+    if nt:
+        ctx.label("nt")
+    ctx.nt(nt)
 
 
 SUBCHECKS = {
-    "geometry": Given(geometry_strategy, run_geometry, quick=2400, thorough=30000),
-    "sampling": Given(sampling_strategy, isolated("sampling", run_sampling), quick=2400, thorough=24000),
+    "geometry": Given(geometry_strategy, run_geometry, quick=2000, thorough=30000),
+    "sampling": Given(sampling_strategy, isolated("sampling", run_sampling), quick=2000, thorough=24000),
     "grid": Given(grid_strategy, isolated("grid", run_grid), quick=1600, thorough=12000),
 }
